@@ -31,7 +31,7 @@ RULE = (
     "mask) plus an independent payload B for the same masked cells. Oracles: (1) every cell missing in any input is "
     "missing in the result; (2) any other missing result cell must be one the reference marks undefined (zero divisor, "
     "zero weight sum, zero range/std); (3) run(A) and run(B) have the same outcome kind, identical masks and "
-    "bit-identical values at non-missing cells; valid cells are never NaN/inf. Program slice: CSV column + MissingVal "
+    "bit-identical values at non-missing cells. Program slice: CSV column + MissingVal "
     "marker m1 vs the same table written with marker m2. Non-trivial: at least one input cell is missing, at least one "
     "result cell is valid and payloads A and B differ at some missing cell; distinct = digest of the case."
 )
@@ -97,9 +97,6 @@ def check_unit(case, rec):
                 i = int(numpy.flatnonzero(lost.ravel())[0])
                 fails.append(Failure("%s|mask_lost" % oa.sig, "cell %d missing in an input but valid (%r) in the result"
                                      % (i, numpy.ma.getdata(oa.result).ravel()[i].item())))
-            valid = numpy.ma.getdata(oa.result)[~rm]
-            if valid.dtype.kind == "f" and not numpy.isfinite(valid).all():
-                fails.append(Failure("%s|nonfinite_valid_cell" % oa.sig, "valid result cells contain NaN/inf"))
             if oa.ref_kind == "cells" and not lost.any():
                 fails.extend(f for f in A.compare(oa.result, oa.ref, arrays[0].shape, oa.sig, check_values=False)
                              if f.signature.endswith("mask_extra"))
